@@ -32,6 +32,11 @@ Theorem C03_same_direction_never_pairs : forall legacy k t t', k = ">"%char \/ k
   compatible (k :: t) (k :: t') legacy = Ok false.
 Proof. exact compatible_same_direction. Qed.
 
+(** under the label-insensitive convention only the symbol kinds count *)
+Theorem C03_new_convention_ignores_labels : forall lk lt lt' rk rt rt',
+  compatible (lk :: lt) (rk :: rt) false = compatible (lk :: lt') (rk :: rt') false.
+Proof. exact compatible_new_ignores_labels. Qed.
+
 Section C03.
   Variables (legacy : bool) (arom : Z -> bool) (edges : list (Z * Z * Z)) (s0 s1 : cstate) (bonds : list bond).
   (** base graph without self loops; per coarse node the atoms carrying descriptors are distinct *)
@@ -76,6 +81,7 @@ Qed.
 Print Assumptions C03_compatible_is_spec.
 Print Assumptions C03_compatible_symmetric.
 Print Assumptions C03_same_direction_never_pairs.
+Print Assumptions C03_new_convention_ignores_labels.
 Print Assumptions C03_only_across_base_edges.
 Print Assumptions C03_at_most_order.
 Print Assumptions C03_pair_compatible.
